@@ -277,6 +277,42 @@ theorem setNextStation_ns (r r' : TokenRing) (a : Nat) (h : r.setNextStation a =
       · unfold isActive; rw [dif_neg hx128]
 
 
+/-! ### The three passes around an admission: `h → a`, `a → n` (with `a` in the GAP of `h`, `n` = old NS of `h`) -/
+
+theorem free_ha (M : List Nat) (h a : Nat) (hh : h ∈ M) (hbt : Between h (cycSucc h M) a) :
+    ∀ b ∈ M, inPassGap h a b = true → b = h := by
+  intro b hb hg
+  by_cases c : b = h
+  · exact c
+  · exact absurd (inPassGap_sub1 h _ a b hbt hg c) (no_member_between h _ M (cycSucc_spec h M) hh b hb)
+
+theorem free_ha' (M M' : List Nat) (h a : Nat) (hh : h ∈ M) (hbt : Between h (cycSucc h M) a)
+    (hM' : ∀ y, y ∈ M' ↔ y = a ∨ y ∈ M) : ∀ b ∈ M', inPassGap h a b = true → b = h := by
+  intro b hb hg
+  rcases (hM' b).mp hb with rfl | hb
+  · rw [inPassGap_arith] at hg; have := hbt.1; omega
+  · exact free_ha M h a hh hbt b hb hg
+
+theorem free_an (M : List Nat) (h a : Nat) (hh : h ∈ M) (hbt : Between h (cycSucc h M) a) :
+    ∀ b ∈ M, inPassGap a (cycSucc h M) b = true → b = a := by
+  intro b hb hg
+  rcases inPassGap_sub2 h _ a b hbt hg with e | e
+  · exact e
+  · exact absurd e (no_member_between h _ M (cycSucc_spec h M) hh b hb)
+
+theorem free_an' (M M' : List Nat) (h a : Nat) (hh : h ∈ M) (hbt : Between h (cycSucc h M) a)
+    (hM' : ∀ y, y ∈ M' ↔ y = a ∨ y ∈ M) : ∀ b ∈ M', inPassGap a (cycSucc h M) b = true → b = a := by
+  intro b hb hg
+  rcases (hM' b).mp hb with rfl | hb
+  · rfl
+  · exact free_an M h a hh hbt b hb hg
+
+/-- The successor of the admitted station in the enlarged ring is the old successor of `h`. -/
+theorem cycSucc_enlarged (M M' : List Nat) (h a : Nat) (hh : h ∈ M) (hbt : Between h (cycSucc h M) a)
+    (hM' : ∀ y, y ∈ M' ↔ y = a ∨ y ∈ M) : cycSucc a M' = cycSucc h M := by
+  rw [cycSucc_congr a M' (a :: M) (fun y => by rw [hM', List.mem_cons]), cycSucc_cons_self]
+  exact cycSucc_of_between h a M hh hbt
+
 /-! ### The ring as a cycle: `nth M j` = the `j mod |M|`-th member -/
 
 def nth (M : List Nat) (j : Nat) : Nat := M.getD (j % M.length) 0
